@@ -64,6 +64,10 @@ func uniqueStore(addr ssa.Value) ssa.Value {
 		n := 0
 		for _, r := range *a.Referrers() {
 			if s, ok := r.(*ssa.Store); ok && s.Addr == a {
+				// a named result is re-stored with its own value at a return (*x = *x): not a second definition
+				if ld, isLd := s.Val.(*ssa.UnOp); isLd && ld.Op == token.MUL && ld.X == ssa.Value(a) {
+					continue
+				}
 				val = s.Val
 				n++
 			}
@@ -239,6 +243,48 @@ func expandGuard(g Guard) []Guard {
 			pred := phi.Block().Preds[nonconst[0]]
 			out = append(out, guardsAtBlockIncl(pred)...)
 		}
+	}
+	return out
+}
+
+// expandGuardDeep: expandGuard, and when the condition is a call of a closure / repository function that returns
+// a single bool and has exactly one return that can be true, the facts that hold at that return (its own result
+// expression being true and the guards dominating it) are added: `if tooFar(x) {…}` with
+// tooFar = func() bool { …; return ok && d > best } gives d > best.
+func expandGuardDeep(g Guard) []Guard {
+	out := expandGuard(g)
+	for _, x := range append([]Guard{}, out...) {
+		call, ok := x.Cond.(*ssa.Call)
+		if !ok || !x.Truth {
+			continue
+		}
+		var fn *ssa.Function
+		if cal := staticCallee(call); cal != nil {
+			fn = cal
+		} else {
+			fn = closureOf(call.Call.Value)
+		}
+		if fn == nil || len(fn.Blocks) == 0 || fn.Signature.Results().Len() != 1 {
+			continue
+		}
+		if bt, ok := fn.Signature.Results().At(0).Type().Underlying().(*types.Basic); !ok || bt.Kind() != types.Bool {
+			continue
+		}
+		var cand []*ssa.Return
+		for _, r := range returnsOf(fn) {
+			if b, isC := constBool(r.Results[0]); isC && !b {
+				continue
+			}
+			cand = append(cand, r)
+		}
+		if len(cand) != 1 {
+			continue
+		}
+		r := cand[0]
+		if _, isC := constBool(r.Results[0]); !isC {
+			out = append(out, expandGuard(Guard{r.Results[0], true})...)
+		}
+		out = append(out, guardsAtBlock(r.Block())...)
 	}
 	return out
 }
